@@ -51,6 +51,11 @@ struct Case {
     cfg: Cfg,
     depth_q: usize,
     depth_t: usize,
+    /// the history runs in a zone with daylight saving (TZ=Europe/Berlin) and starts at
+    /// 2023-10-29 02:30:00 CEST, inside the local hour that occurs twice that night: the
+    /// timestamps in the file names are ambiguous as local times (the clock itself does not
+    /// jump back within the history)
+    dst: bool,
 }
 
 fn cleanups() -> Vec<CleanK> {
@@ -77,6 +82,7 @@ fn grid() -> Vec<Case> {
                 cfg: Cfg::rot(CritK::Size(LIMIT), naming, clean),
                 depth_q: 4,
                 depth_t: 5,
+                dst: false,
             });
         }
     }
@@ -89,6 +95,7 @@ fn grid() -> Vec<Case> {
                     cfg,
                     depth_q: 4,
                     depth_t: 5,
+                dst: false,
                 });
             }
         }
@@ -102,6 +109,7 @@ fn grid() -> Vec<Case> {
                 cfg,
                 depth_q: 4,
                 depth_t: 5,
+                dst: false,
             });
         }
     }
@@ -114,6 +122,18 @@ fn grid() -> Vec<Case> {
                 cfg,
                 depth_q: 4,
                 depth_t: 5,
+                dst: false,
+            });
+        }
+    }
+    // local times that occur twice (end of daylight saving)
+    for naming in [NamingK::Timestamps, NamingK::TimestampsDirect, NamingK::CustomCur, NamingK::CustomDirect] {
+        for clean in [CleanK::Log(1), CleanK::Gz(1)] {
+            g.push(Case {
+                cfg: Cfg::rot(CritK::Size(LIMIT), naming, clean),
+                depth_q: 4,
+                depth_t: 5,
+                dst: true,
             });
         }
     }
@@ -125,6 +145,7 @@ fn grid() -> Vec<Case> {
                 cfg,
                 depth_q: 3,
                 depth_t: 4,
+                dst: false,
             });
         }
     }
@@ -310,7 +331,14 @@ struct Fail {
 }
 
 fn run_history(c: &Case, word: &[HOp]) -> Result<(Vec<(usize, usize, usize)>, bool), Fail> {
-    let env = Env::new("c07");
+    // one scenario at a time per process; chrono re-reads TZ on every conversion
+    let env = if c.dst {
+        std::env::set_var("TZ", "Europe/Berlin");
+        Env::at("c07", crate::hooks::ts(2023, 10, 29, 2, 30, 0))
+    } else {
+        std::env::remove_var("TZ");
+        Env::new("c07")
+    };
     env.enter();
     let mut h = Hist::new(&env, c.cfg.clone());
     let buffered = matches!(c.cfg.mode, ModeK::BufDont(_) | ModeK::BufFlush(..));
@@ -577,6 +605,7 @@ fn run_sched_unit(tier: &str, idx: usize, out: &mut Out) {
 
 fn run_unit(tier: &str, unit: usize, out: &mut Out) {
     if unit >= e1_units() {
+        std::env::remove_var("TZ");
         run_sched_unit(tier, unit - e1_units(), out);
         return;
     }
